@@ -27,10 +27,25 @@ func uvarintFromBytes(p []byte) (uint64, int) {
 	return uvarint.Decode(p)
 }
 
+// uvarintLen gives the length of an encoded uvarint, known from its first byte.
+func uvarintLen(b0 byte) int {
+	switch {
+	case b0 <= 240:
+		return 1
+	case b0 <= 248:
+		return 2
+	default:
+		return int(b0) - 246
+	}
+}
+
 func uvarintFromBuf(r *bufio.Reader) (uint64, error) {
 	p, err := r.Peek(9)
 	if err != nil && err != io.EOF {
 		return 0, err
+	}
+	if len(p) == 0 || len(p) < uvarintLen(p[0]) {
+		return 0, io.ErrUnexpectedEOF
 	}
 	x, n := uvarintFromBytes(p)
 	_, err = r.Discard(n)
@@ -135,21 +150,26 @@ func valueFromBuf(r *bufio.Reader) (value, error) {
 
 	switch c := typecode(b[0]); c {
 	case typeINT:
-		p, _ := r.Peek(9)
-		x, i := varintFromBytes(p)
-		_, err = r.Discard(i)
-		return int(x), err
+		x, err := uvarintFromBuf(r)
+		return int(u64ToI64(x)), err
 
 	case typeFLOAT:
 		p, _ := r.Peek(8)
+		if len(p) < 8 {
+			return nil, io.ErrUnexpectedEOF
+		}
 		_, err = r.Discard(len(p))
 		return math.Float64frombits(stdbinary.BigEndian.Uint64(p)), err
 
 	case typeSTR:
-		p, _ := r.Peek(9)
-		k, i := uvarintFromBytes(p)
-		r.Discard(i)
-		p, _ = r.Peek(int(k))
+		k, err := uvarintFromBuf(r)
+		if err != nil {
+			return nil, err
+		}
+		p, _ := r.Peek(int(k))
+		if len(p) < int(k) {
+			return nil, io.ErrUnexpectedEOF
+		}
 		_, err = r.Discard(len(p))
 		return string(p), err
 
